@@ -527,6 +527,8 @@ func (rr *runRec) barOptions(bi int) (mpb.BarFiller, []mpb.BarOption) {
 		filler = mpb.SpinnerStyle("|", "/", "-").Build()
 	case "nop":
 		filler = nil
+	case "nilfunc":
+		filler = mpb.BarFillerFunc(nil) // a typed nil is as good as nil to Add
 	default:
 		filler = mpb.BarStyle().Build()
 	}
